@@ -115,7 +115,9 @@ pub fn gen_row(p: &mut Prng, arch: Arch) -> RowSpec {
 /// FDEs inside `[lo, hi)` (stated addresses): gaps, adjacent ranges, one-byte ranges,
 /// shuffled section order.
 pub fn gen_fdes(p: &mut Prng, arch: Arch, lo: u64, hi: u64, max_fdes: u64) -> Vec<FdeSpec> {
-    let n = p.below(max_fdes + 1);
+    // now and then a table of hundreds of (short) FDEs: deep binary searches
+    let many = hi - lo > 0x8000 && p.chance(1, 40);
+    let n = if many { 64 + p.below(500) } else { p.below(max_fdes + 1) };
     let mut fdes = Vec::new();
     let mut cur = lo + if p.chance(1, 2) { 0 } else { p.below(0x40) };
     for _ in 0..n {
@@ -125,7 +127,7 @@ pub fn gen_fdes(p: &mut Prng, arch: Arch, lo: u64, hi: u64, max_fdes: u64) -> Ve
         let len = match p.below(6) {
             0 => 1,
             1 => 2,
-            _ => 1 + p.below(0x200),
+            _ => 1 + p.below(if many { 0x20 } else { 0x200 }),
         }
         .min(hi - cur);
         let n_rows = 1 + p.below(3);
@@ -150,6 +152,21 @@ pub fn gen_fdes(p: &mut Prng, arch: Arch, lo: u64, hi: u64, max_fdes: u64) -> Ve
         cur += len;
         if !p.chance(1, 3) {
             cur += p.below(0x80); // gap
+        }
+    }
+    // leftovers: FDEs of length zero (e.g. of discarded function copies) on the start of a real
+    // FDE, at its end, or in a gap; anywhere in the section, with rows of their own
+    if !fdes.is_empty() && p.chance(1, 4) {
+        for _ in 0..1 + p.below(2) {
+            let at = fdes[p.below(fdes.len() as u64) as usize].clone();
+            let start = match p.below(3) {
+                0 => at.start,
+                1 => at.start + at.len,
+                _ => at.start + at.len + p.below(4),
+            };
+            if start < hi {
+                fdes.push(FdeSpec { start, len: 0, rows: vec![(0, gen_row(p, arch))], eval_fails: false, pac: false });
+            }
         }
     }
     // shuffle section order
